@@ -383,6 +383,120 @@ pub mod lemmas {
     }
 
 
+    // ---- C11, second half: writing every parsed record unchanged reproduces the input ------------------------------------
+    /// the same lines with a terminator after the last line: only the end of the text differs
+    proof fn lemma_text_fin(ls: Seq<Seq<u8>>, cr: Seq<bool>, fin: bool, m: int)
+        requires 0 <= m <= ls.len()
+        ensures m < ls.len() ==> text(ls, cr, true, m) == text(ls, cr, fin, m),
+                m == ls.len() ==> text(ls, cr, true, m) == text(ls, cr, fin, m) + (if fin || m == 0 { Seq::<u8>::empty() } else { seq![10u8] }),
+        decreases m
+    {
+        if m > 0 {
+            lemma_text_fin(ls, cr, fin, m - 1);
+            if m == ls.len() && !fin {
+                assert(term(cr[m - 1], true) =~= term(cr[m - 1], false) + seq![10u8]);
+                assert(text(ls, cr, true, m) =~= text(ls, cr, fin, m) + seq![10u8]);
+            } else {
+                assert(text(ls, cr, true, m) =~= text(ls, cr, fin, m));
+            }
+        } else {
+            assert(text(ls, cr, true, m) =~= text(ls, cr, fin, m) + Seq::<u8>::empty());
+        }
+    }
+    /// a stretch of the text between two line starts
+    proof fn lemma_text_segment(ls: Seq<Seq<u8>>, cr: Seq<bool>, fin: bool, i: int, j: int)
+        requires 0 <= i <= j <= ls.len()
+        ensures text(ls, cr, fin, j) == text(ls, cr, fin, i) + full(ls, cr, fin).subrange(off(ls, cr, fin, i), off(ls, cr, fin, j)),
+                off(ls, cr, fin, i) <= off(ls, cr, fin, j) <= full(ls, cr, fin).len()
+    {
+        let f = full(ls, cr, fin);
+        lemma_text_prefix(ls, cr, fin, i, j);
+        lemma_text_prefix(ls, cr, fin, j, ls.len() as int);
+        lemma_text_prefix(ls, cr, fin, i, ls.len() as int);
+        let (a, b) = (off(ls, cr, fin, i), off(ls, cr, fin, j));
+        assert(text(ls, cr, fin, j) =~= f.subrange(0, b));
+        assert(text(ls, cr, fin, i) =~= f.subrange(0, a));
+        assert(f.subrange(0, b) =~= f.subrange(0, a) + f.subrange(a, b));
+    }
+    /// what write_unchanged appends for the k-th record, by its contract: the bytes from its '@' to the end of its quality line, then LF
+    pub open spec fn fq_unchanged(rs: Seq<FqRec>, crlf: bool, fin: bool, k: int) -> Seq<u8> {
+        let f = fq_text(rs, crlf, fin); let p = fq_off(rs, crlf, fin, k);
+        f.subrange(p, c4(f, p)) + seq![10u8]
+    }
+    pub open spec fn fq_unchanged_all(rs: Seq<FqRec>, crlf: bool, fin: bool, k: int) -> Seq<u8>
+        decreases k
+    {
+        if k <= 0 { Seq::<u8>::empty() } else { fq_unchanged_all(rs, crlf, fin, k - 1) + fq_unchanged(rs, crlf, fin, k - 1) }
+    }
+    /// where record k ends in the text
+    proof fn lemma_fq_extent(rs: Seq<FqRec>, crlf: bool, fin: bool, k: int)
+        requires fq_fields_ok(rs), 0 <= k < rs.len()
+        ensures ({
+            let ls = fq_lines(rs); let cr = uniform(4 * rs.len(), crlf, fin); let f = fq_text(rs, crlf, fin); let p = fq_off(rs, crlf, fin, k);
+            let e = off(ls, cr, fin, 4 * k + 4);
+            &&& 0 <= p <= c4(f, p) <= f.len() && e <= f.len() && ls.len() == 4 * rs.len()
+            &&& (k + 1 < rs.len() || fin ==> c4(f, p) + 1 == e && f[c4(f, p)] == 10u8)
+            &&& (!(k + 1 < rs.len() || fin) ==> c4(f, p) == f.len() && e == f.len())
+        })
+    {
+        let ls = fq_lines(rs); let cr = uniform(4 * rs.len(), crlf, fin); let f = fq_text(rs, crlf, fin);
+        lemma_fq_record(rs, crlf, fin, k);
+        lemma_fq_line(rs, k);
+        lemma_full_len0(ls, cr, fin);
+        lemma_text_prefix(ls, cr, fin, 4 * k + 4, ls.len() as int);
+        lemma_nl_bounds(f, off(ls, cr, fin, 4 * k + 3));
+        lemma_nl_bounds(f, fq_off(rs, crlf, fin, k));
+    }
+    /// one more record: its output is the next four lines of the input with their original endings
+    proof fn lemma_unchanged_step(rs: Seq<FqRec>, crlf: bool, fin: bool, k: int)
+        requires fq_fields_ok(rs), 0 <= k < rs.len()
+        ensures text(fq_lines(rs), uniform(4 * rs.len(), crlf, fin), true, 4 * k + 4)
+                    == text(fq_lines(rs), uniform(4 * rs.len(), crlf, fin), true, 4 * k) + fq_unchanged(rs, crlf, fin, k)
+    {
+        hide(fq_fields_ok); hide(fq_lines); hide(uniform); hide(text); hide(c4);
+        let ls = fq_lines(rs); let cr = uniform(4 * rs.len(), crlf, fin);
+        let f = fq_text(rs, crlf, fin);
+        let p = fq_off(rs, crlf, fin, k);
+        let e = off(ls, cr, fin, 4 * k + 4);
+        lemma_fq_extent(rs, crlf, fin, k);
+        lemma_text_segment(ls, cr, fin, 4 * k, 4 * k + 4);
+        lemma_text_fin(ls, cr, fin, 4 * k);
+        lemma_text_fin(ls, cr, fin, 4 * k + 4);
+        let t0 = text(ls, cr, fin, 4 * k);
+        let c = c4(f, p);
+        assert(text(ls, cr, true, 4 * k) == t0);
+        assert(text(ls, cr, fin, 4 * k + 4) == t0 + f.subrange(p, e));
+        if k + 1 < rs.len() || fin {
+            assert(f.subrange(p, e) =~= f.subrange(p, c) + seq![10u8]);
+            assert(text(ls, cr, true, 4 * k + 4) == text(ls, cr, fin, 4 * k + 4));
+        } else {
+            assert(text(ls, cr, true, 4 * k + 4) == text(ls, cr, fin, 4 * k + 4) + seq![10u8]);
+            assert(t0 + f.subrange(p, e) + seq![10u8] =~= t0 + (f.subrange(p, c) + seq![10u8]));
+        }
+    }
+    /// the outputs for the first k records are the first 4k lines of the input, each with its original ending
+    proof fn lemma_unchanged_prefix(rs: Seq<FqRec>, crlf: bool, fin: bool, k: int)
+        requires fq_fields_ok(rs), 0 <= k <= rs.len()
+        ensures fq_unchanged_all(rs, crlf, fin, k) == text(fq_lines(rs), uniform(4 * rs.len(), crlf, fin), true, 4 * k)
+        decreases k
+    {
+        if k > 0 {
+            lemma_unchanged_prefix(rs, crlf, fin, k - 1);
+            lemma_unchanged_step(rs, crlf, fin, k - 1);
+        }
+    }
+    /// C11: the concatenated write_unchanged outputs of all records are the input, with a terminator added after the last line if it had none
+    pub proof fn lemma_fastq_unchanged_reproduces_input(rs: Seq<FqRec>, crlf: bool, fin: bool)
+        requires fq_fields_ok(rs), rs.len() >= 1
+        ensures
+            [C11|lemma.fastq_unchanged.reproduces_input] fq_unchanged_all(rs, crlf, fin, rs.len() as int)
+                == fq_text(rs, crlf, fin) + (if fin { Seq::<u8>::empty() } else { seq![10u8] }),
+    {
+        lemma_unchanged_prefix(rs, crlf, fin, rs.len() as int);
+        lemma_text_fin(fq_lines(rs), uniform(4 * rs.len(), crlf, fin), fin, 4 * rs.len() as int);
+        lemma_fq_line(rs, 0);
+    }
+
     // ---------------------------------------------------------------------------------------------
     // C12 (FASTA): the rule functions read the records back from a text given as lines, for every per-line mixture of LF and
     // CRLF endings, with or without a terminator after the last line
@@ -821,6 +935,7 @@ pub mod lemmas {
                 && (k + 1 == rs.len() ==> fa_bnd(f, p) == f.len())
             }),
     {
+        hide(fa_fields_ok); hide(fa_recs); hide(fa_rec_at); hide(fa_text_ok);
         let n = rs.len() as int;
         let ls = fa_all_lines(rs, n);
         let cr = falses(ls.len());
@@ -828,6 +943,8 @@ pub mod lemmas {
         lemma_render_is_full(rs);
         lemma_all_lines_ok(rs);
         lemma_hs_ok(rs);
+        lemma_rec_in_all_lines(rs, k);
+
         lemma_fasta_stream(ls, cr, true, hs, k);
         lemma_rec_in_all_lines(rs, k);
         let j = fa_all_lines(rs, k + 1).len() as int;
